@@ -17,7 +17,6 @@ import (
 	"golang.org/x/tools/go/ssa/ssautil"
 )
 
-
 type program struct {
 	prog               *ssa.Program
 	pkgs               []*ssa.Package
@@ -116,6 +115,12 @@ type loadSpec struct {
 	Tags     []string
 }
 
+// harness files set aside because they do not build against the current tree
+var (
+	droppedOverlayFiles = map[string]bool{}
+	droppedMu           sync.Mutex
+)
+
 func loadProgram(spec loadSpec, repoRoot string) (*program, error) {
 	overlay := map[string][]byte{}
 	for virt, real := range spec.Overlay {
@@ -136,21 +141,49 @@ func loadProgram(spec loadSpec, repoRoot string) (*program, error) {
 	if len(spec.Tags) > 0 {
 		cfg.BuildFlags = []string{"-tags=" + strings.Join(spec.Tags, ",")}
 	}
-	initial, err := packages.Load(cfg, spec.Patterns...)
-	if err != nil {
-		return nil, err
-	}
-	var errs []string
-	packages.Visit(initial, nil, func(p *packages.Package) {
-		for _, e := range p.Errors {
-			errs = append(errs, e.Error())
+	var initial []*packages.Package
+	for round := 0; ; round++ {
+		var err error
+		initial, err = packages.Load(cfg, spec.Patterns...)
+		if err != nil {
+			return nil, err
 		}
-	})
-	if len(errs) > 0 {
-		if len(errs) > 12 {
-			errs = errs[:12]
+		var errs []string
+		broken := map[string]bool{}
+		foreign := false
+		packages.Visit(initial, nil, func(p *packages.Package) {
+			for _, e := range p.Errors {
+				errs = append(errs, e.Error())
+				file := e.Pos
+				if i := strings.Index(file, ":"); i >= 0 {
+					file = file[:i]
+				}
+				if _, isOverlay := overlay[file]; isOverlay && strings.HasPrefix(filepath.Base(file), "zz_vf") {
+					broken[file] = true
+				} else {
+					foreign = true
+				}
+			}
+		})
+		if len(errs) == 0 {
+			break
 		}
-		return nil, fmt.Errorf("harness does not build against the current tree:\n%s", strings.Join(errs, "\n"))
+		// A change to the code under test may break single harness files (a signature they
+		// use has changed).  Those files are set aside - their harnesses are reported as
+		// missing, i.e. inconclusive - and the others still run.
+		if foreign || len(broken) == 0 || round >= 4 {
+			if len(errs) > 12 {
+				errs = errs[:12]
+			}
+			return nil, fmt.Errorf("harness does not build against the current tree:\n%s", strings.Join(errs, "\n"))
+		}
+		for f := range broken {
+			delete(overlay, f)
+			droppedMu.Lock()
+			droppedOverlayFiles[f] = true
+			droppedMu.Unlock()
+			fmt.Printf("INCONCLUSIVE: harness file %s does not build against the current tree and is set aside (%s)\n", strings.TrimPrefix(f, repoRoot+"/"), firstLine(errs[0]))
+		}
 	}
 	prog, pkgs := ssautil.AllPackages(initial, ssa.InstantiateGenerics|ssa.SanityCheckFunctions&0)
 	prog.Build()
